@@ -1,8 +1,9 @@
 (* Property C10 — a number is typed DateTime exactly when its cell style is a date/time format.
    Only the property theorems (closed by [exact]), [Check] pins, non-vacuity examples and
    [Print Assumptions].  Model and spec: NumFmt.v; proofs: NumFmt_proofs.v.
-   The model follows /repo after the fix: commits ac433ce c5a918f a61713f aa1af82 4fe67c6 35d58d0;
-   there is no known class left. *)
+   The model follows /repo after the fix: commits ac433ce c5a918f a61713f aa1af82 4fe67c6 35d58d0
+   and — audit 2, FMT-1 — "date formats made only of weekday / era / Buddhist-year tokens were
+   typed as numbers"; there is no known class left. *)
 From Calamine Require Import Prelude NumFmt NumFmt_proofs.
 Open Scope N_scope.
 
@@ -12,6 +13,33 @@ Open Scope N_scope.
 Theorem C10_scanner_agrees_with_grammar :
   forall a : ast, wf a = true -> detect (render a) = classify a.
 Proof. exact scanner_agrees_with_grammar. Qed.
+
+(* [wf] since audit 2: the grammar has the date tokens of Excel's format language that ECMA-376
+   shows only inside locale-specific built-in formats — aaa / aaaa (day of the week), g / gg / ggg
+   (era), e / ee (year of the era), bb / bbbb (Buddhist year) — and two context conditions: the
+   exponent E+ / e- stands directly after a digit placeholder, a decimal point or a comma (it is
+   part of a number), the year of the era does not (without them "e+" would have two readings,
+   NumFmt_proofs.exponent_context_needed) *)
+Theorem C10_wf_is :
+  forall s : section, wf_section s = forallb wf_tok s && ctx_ok false s.
+Proof. reflexivity. Qed.
+
+(* a format whose first deciding token is a weekday / era / era-year / Buddhist-year token is a
+   date format, whatever non-deciding tokens surround it: [$-411]aaaa, ggge"年", [$-D07041E]bbbb *)
+Theorem C10_locale_date_tokens_decide :
+  forall (pre : section) (t : token) (post : section) (rest : list N),
+    wf_section (pre ++ t :: post) = true -> classify_section pre = Other ->
+    is_locale_date t = true ->
+    detect (render_section (pre ++ t :: post)) = DateTime /\
+    detect (render_section (pre ++ t :: post) ++ 59 :: rest) = DateTime.
+Proof. exact locale_date_tokens_decide. Qed.
+
+(* the scanner has no panic site: in every state reached from the initial one, over any prefix of
+   any string, the u8 counter a_run is at most 2 before `a_run += 1` and keyword at most 6 *)
+Theorem C10_scanner_counters_bounded :
+  forall (l1 l2 : list N) (q : st),
+    run_with l2 init l1 = Continue q -> a_run q <= 2 /\ keyword q <= 6.
+Proof. exact a_run_bounded. Qed.
 
 (* stronger form for the tail: whatever follows the first top-level ';' is irrelevant (it need
    not even be well formed) *)
@@ -104,8 +132,28 @@ Example C10_former_witnesses_nonvacuous :
   forallb wf former_witnesses = true /\
   map (fun a => detect (render a)) former_witnesses = map classify former_witnesses /\
   map classify former_witnesses =
-    [DateTime; DateTime; Other; DateTime; DateTime; DateTime; Other; DateTime].
+    [DateTime; DateTime; Other; DateTime; DateTime; DateTime; Other; DateTime;
+     DateTime; DateTime; DateTime; DateTime; DateTime; Other; Other; DateTime].
 Proof. exact former_witnesses_agree. Qed.
+
+(* the newly admitted tokens inside one derivation that meets [wf]: [$-411]aaaa after a colour, an
+   exponent after a placeholder in the second section; and the hypotheses of
+   C10_locale_date_tokens_decide on ggge"年" behind a locale prefix *)
+Example C10_locale_tokens_nonvacuous :
+  let a := [[TColour CBlue []; TLocale [] [52; 49; 49]; TQuoted [40]; TWeekday true [true]; TQuoted [41]];
+            [TDigit PZero; TLit 46; TDigit PZero; TExp [true] false; TDigit PZero]] in
+  wf a = true /\ classify a = DateTime /\ detect (render a) = DateTime /\
+  render a = [91; 98; 108; 117; 101; 93; 91; 36; 45; 52; 49; 49; 93; 34; 40; 34; 65; 97; 97; 97; 34; 41; 34;
+              59; 48; 46; 48; 69; 45; 48] /\                 (* [blue][$-411]"("Aaaa")";0.0E-0 *)
+  (let pre := [TLocale [] [52; 49; 49]] in
+   let post := [TEraYear false []; TQuoted [24180]] in
+   wf_section (pre ++ TEra 2 [] :: post) = true /\ classify_section pre = Other /\
+   is_locale_date (TEra 2 []) = true /\
+   render_section (pre ++ TEra 2 [] :: post) =
+     [91; 36; 45; 52; 49; 49; 93; 103; 103; 103; 101; 34; 24180; 34]) /\     (* [$-411]ggge"年" *)
+  wf [[TExp [] true]] = false /\ wf [[TDigit PHash; TEraYear true []]] = false /\
+  wf [[TEra 3 []]] = false.
+Proof. vm_compute. repeat split. Qed.
 
 Example C10_tables_nonvacuous :
   builtin_format_by_code 46 = TimeDelta /\ builtin_format_by_id (decimal 22) = DateTime /\
@@ -125,6 +173,13 @@ Proof. exact plumbing_nonvacuous. Qed.
 
 Check C10_scanner_agrees_with_grammar :
   forall a : ast, wf a = true -> detect (render a) = classify a.
+Check C10_wf_is : forall s : section, wf_section s = forallb wf_tok s && ctx_ok false s.
+Check C10_locale_date_tokens_decide :
+  forall (pre : section) (t : token) (post : section) (rest : list N),
+    wf_section (pre ++ t :: post) = true -> classify_section pre = Other ->
+    is_locale_date t = true ->
+    detect (render_section (pre ++ t :: post)) = DateTime /\
+    detect (render_section (pre ++ t :: post) ++ 59 :: rest) = DateTime.
 Check C10_builtin_tables_agree :
   forall c : N, c < 65536 ->
     builtin_format_by_code c = builtin_format_by_id (decimal c) /\
@@ -155,6 +210,9 @@ Check C10_date_iff_style_xlsb :
 
 Print Assumptions C10_scanner_agrees_with_grammar.
 Print Assumptions C10_first_section_only.
+Print Assumptions C10_wf_is.
+Print Assumptions C10_locale_date_tokens_decide.
+Print Assumptions C10_scanner_counters_bounded.
 Print Assumptions C10_builtin_tables_agree.
 Print Assumptions C10_date_iff_style_xlsx.
 Print Assumptions C10_date_iff_style_xls.
